@@ -4,6 +4,7 @@ import (
 	"fmt"
 	"go/token"
 	"go/types"
+	"jtverif/internal/absint"
 	"sort"
 	"strings"
 
@@ -307,6 +308,40 @@ func runC13(c *Ctx) {
 	R.Require("E5.exit", 2, "")
 	R.Require("E5.leave", 1, "")
 	R.Require("E5.stop-order", 2, "")
+	// ---- the roles themselves do not panic: reader and writer of a connection, interpreted from the state the
+	//      constructor establishes, for every message, command, completion and teardown order the interpretation covers
+	//      (nil dereference of a message without frame, index / slice bounds, explicit panics). Shared with C10.
+	{
+		c.E1Rules()
+		sNew := c.P.Func("service", "newConnection")
+		sReader := c.P.Method("service", "connection", "reader")
+		sWrite := c.P.Method("service", "connection", "write")
+		if sNew == nil || sReader == nil || sWrite == nil {
+			R.Fatal("anchors service.newConnection / connection.reader / connection.write not found")
+		} else {
+			paired := map[string]string{}
+			if c.pairedMapsLemma("service", "packageParse", "subcontractingRecord", "timeoutRecord") {
+				paired[".packageParse#timeoutRecord"] = ".packageParse#subcontractingRecord"
+			}
+			seqs := []seqEntry{{sNew, sReader, false}, {sNew, sWrite, false}}
+			results := make([]*E1Result, len(seqs))
+			done := make(chan int)
+			for i := range seqs {
+				go func(i int) {
+					results[i] = c.runSeqWith(seqs[i], func(a *absint.Analyzer) { a.PairedMaps = paired })
+					done <- i
+				}(i)
+			}
+			for range seqs {
+				<-done
+			}
+			n := c.AddE1(results, false)
+			R.Notes["role_obligation_instances"] = n
+			if n < 100 {
+				R.Fatal("the reader / writer role analysis produced only %d obligation instances (anchor)", n)
+			}
+		}
+	}
 	R.Explain = "Channel discipline by goroutine role over the VTA call graph: who closes and who sends on each connection channel, what the writer does on its exit path, whether teardown leaves the registry first and synchronously, whether every accepted command has a completion source. " +
 		"The wall-clock bound of the property is not decided. Genuine defects of the current tree (sends on activeMsgCompleteChan from the writer and the timeout goroutine while the reader closes it; no answer to outstanding/queued callers at writer exit) are recorded as known findings."
 	_ = strings.Join
@@ -380,6 +415,181 @@ func (c *Ctx) timeoutRule() {
 			st = report.Violated
 		}
 		R.Add("E5.timeout", "connection.onActiveEvent / a timeout goroutine is started for every duration >= 0", c.P.RelPos(onActive.Pos()), st, d)
+	}
+	// the time waited is the configured duration itself (or the constant default): by def-use, the argument of the
+	// waiting primitive in the goroutine started by onActiveEvent is only the OverTimeDuration field or a constant -
+	// no arithmetic, no detour through float seconds (truncation makes sub-second timeouts fire at once)
+	{
+		var goFns []*ssa.Function
+		for _, b := range onActive.Blocks {
+			for _, ins := range b.Instrs {
+				if g, isGo := ins.(*ssa.Go); isGo {
+					switch v := g.Call.Value.(type) {
+					case *ssa.MakeClosure:
+						if f, isF := v.Fn.(*ssa.Function); isF {
+							goFns = append(goFns, f)
+						}
+					case *ssa.Function:
+						goFns = append(goFns, v)
+					}
+				}
+			}
+		}
+		var leaves []string
+		var walk func(v ssa.Value, fn *ssa.Function, depth int)
+		seen := map[ssa.Value]bool{}
+		walk = func(v ssa.Value, fn *ssa.Function, depth int) {
+			if v == nil || seen[v] || depth > 10 {
+				return
+			}
+			seen[v] = true
+			switch x := v.(type) {
+			case *ssa.Const:
+				leaves = append(leaves, "const")
+			case *ssa.Phi:
+				for _, e := range x.Edges {
+					walk(e, fn, depth+1)
+				}
+			case *ssa.ChangeType:
+				walk(x.X, fn, depth+1)
+			case *ssa.Convert:
+				if isIntType(x.Type()) && isIntType(x.X.Type()) {
+					walk(x.X, fn, depth+1)
+				} else {
+					leaves = append(leaves, "a conversion "+x.X.Type().String()+" → "+x.Type().String()+" at "+c.P.RelPos(x.Pos()))
+				}
+			case *ssa.UnOp:
+				switch a := x.X.(type) {
+				case *ssa.FieldAddr:
+					st := a.X.Type().Underlying().(*types.Pointer).Elem().Underlying().(*types.Struct)
+					leaves = append(leaves, "field:"+st.Field(a.Field).Name())
+				case *ssa.Alloc:
+					for _, ref := range *a.Referrers() {
+						if s2, isS := ref.(*ssa.Store); isS && s2.Addr == ssa.Value(a) {
+							walk(s2.Val, a.Parent(), depth+1)
+						}
+					}
+				case *ssa.FreeVar:
+					walk(a, fn, depth+1)
+				default:
+					leaves = append(leaves, fmt.Sprintf("a load of %T", x.X))
+				}
+			case *ssa.FreeVar:
+				f := x.Parent()
+				idx := -1
+				for i, fv := range f.FreeVars {
+					if fv == x {
+						idx = i
+					}
+				}
+				found := false
+				if par := f.Parent(); par != nil && idx >= 0 {
+					for _, b := range par.Blocks {
+						for _, ins := range b.Instrs {
+							if mc, isMC := ins.(*ssa.MakeClosure); isMC && mc.Fn == ssa.Value(f) && idx < len(mc.Bindings) {
+								found = true
+								bv := mc.Bindings[idx]
+								if al, isAl := bv.(*ssa.Alloc); isAl {
+									// captured by reference: the values stored into the variable
+									for _, ref := range *al.Referrers() {
+										if s2, isS := ref.(*ssa.Store); isS && s2.Addr == ssa.Value(al) {
+											walk(s2.Val, par, depth+1)
+										}
+									}
+								} else {
+									walk(bv, par, depth+1)
+								}
+							}
+						}
+					}
+				}
+				if !found {
+					leaves = append(leaves, "an unresolved captured variable "+x.Name())
+				}
+			case *ssa.Parameter:
+				// the corresponding argument at every call / go site of the function inside the package
+				pf := x.Parent()
+				idx := -1
+				for i, p := range pf.Params {
+					if p == x {
+						idx = i
+					}
+				}
+				nSites := 0
+				for _, g := range c.RepoFuncs("service") {
+					for _, b := range g.Blocks {
+						for _, ins := range b.Instrs {
+							ci, isCI := ins.(ssa.CallInstruction)
+							if !isCI {
+								continue
+							}
+							cc := ci.Common()
+							var callee *ssa.Function
+							switch cv := cc.Value.(type) {
+							case *ssa.Function:
+								callee = cv
+							case *ssa.MakeClosure:
+								callee, _ = cv.Fn.(*ssa.Function)
+							}
+							if callee != pf || cc.IsInvoke() || idx >= len(cc.Args) {
+								continue
+							}
+							nSites++
+							walk(cc.Args[idx], g, depth+1)
+						}
+					}
+				}
+				if nSites == 0 {
+					leaves = append(leaves, "parameter "+x.Name()+" of a function without call sites in the package")
+				}
+			case *ssa.BinOp:
+				leaves = append(leaves, "arithmetic ("+x.Op.String()+") at "+c.P.RelPos(x.Pos()))
+			case *ssa.Call:
+				// a helper of the package that hands back one of its arguments or a constant (choice of the default)
+				if sc := x.Call.StaticCallee(); sc != nil && c.P.IsRepoFunc(sc) && pkgOf(sc) == pkgOf(onActive) && len(sc.Blocks) > 0 && sc.Signature.Results().Len() == 1 {
+					for _, b := range sc.Blocks {
+						if ret, isR := b.Instrs[len(b.Instrs)-1].(*ssa.Return); isR {
+							walk(ret.Results[0], sc, depth+1)
+						}
+					}
+					break
+				}
+				leaves = append(leaves, "the result of "+calleeName(&x.Call)+" at "+c.P.RelPos(x.Pos()))
+			default:
+				leaves = append(leaves, fmt.Sprintf("%T", v))
+			}
+		}
+		nWait := 0
+		for _, f := range goFns {
+			for _, b := range f.Blocks {
+				for _, ins := range b.Instrs {
+					call, isC := ins.(*ssa.Call)
+					if !isC || call.Call.StaticCallee() == nil {
+						continue
+					}
+					switch call.Call.StaticCallee().String() {
+					case "time.Sleep", "time.After", "time.NewTimer", "time.Tick", "time.NewTicker":
+						nWait++
+						walk(call.Call.Args[0], f, 0)
+					case "time.AfterFunc":
+						nWait++
+						walk(call.Call.Args[0], f, 0)
+					}
+				}
+			}
+		}
+		ok, d := nWait > 0, "the goroutine started by onActiveEvent waits on no timer"
+		for _, l := range dedupe(leaves) {
+			if l != "const" && l != "field:OverTimeDuration" {
+				ok = false
+				d = "the time the timeout goroutine waits is derived from " + l + ", not the configured OverTimeDuration itself (or the constant default): the caller's timeout is not the time that elapses"
+			}
+		}
+		st := report.Discharged
+		if !ok {
+			st = report.Violated
+		}
+		R.Add("E5.timeout", "connection.onActiveEvent / the goroutine waits exactly the configured duration (or the default)", c.P.RelPos(onActive.Pos()), st, d)
 	}
 }
 
